@@ -109,7 +109,7 @@ fn main() {
         let m = M { k, horizon, units: unit_alphabet() };
         let init = St { r: ReservoirSampling::new(k, ChoiceRng), n: 0 };
         let ok0 = init.r.is_empty() && init.r.reservoir().is_empty() && init.r.i() == 0;
-        let search = Search { threads: 4, max_states: 30_000_000, ..Search::new(&m) };
+        let search = Search { threads: 4, max_states: 30_000_000, dup_lookahead: true, ..Search::new(&m) };
         let (stats, found) = search.run(vec![init.clone()], |_, _| {});
         let mut viols = vec![];
         if !ok0 {
